@@ -339,8 +339,53 @@ theorem setBatch_coherent (ms : MSt) (j : Nat) (b : Option (List Nat)) (h : Cohe
   obtain ⟨y', hy', ey⟩ := key ms j y hy
   rw [ex, ey]; exact h x' hx' y' hy'
 
+theorem cutAll_mem (a b : List St) (j : Nat) (ks : List Nat) (x : St) (hx : x ∈ cutAll a b j ks) :
+    ∃ s s' k, s' ∈ b ∧ x = St.cut s s' k := by
+  induction a generalizing b j with
+  | nil => simp [cutAll] at hx
+  | cons s r ih =>
+    cases b with
+    | nil => simp [cutAll] at hx
+    | cons s' r' =>
+      simp only [cutAll, List.mem_cons] at hx
+      rcases hx with hx | hx
+      · exact ⟨s, s', _, by simp, hx⟩
+      · obtain ⟨s1, s2, k, hm, e⟩ := ih r' (j + 1) hx
+        exact ⟨s1, s2, k, by simp [hm], e⟩
+
+theorem cutAll_get (a b : List St) (j : Nat) (ks : List Nat) (i : Nat) (s s' : St)
+    (ha : a[i]? = some s) (hb : b[i]? = some s') :
+    (cutAll a b j ks)[i]? = some (St.cut s s' (ks.getD (j + i) 0)) := by
+  induction a generalizing b j i with
+  | nil => simp at ha
+  | cons x r ih =>
+    cases b with
+    | nil => simp at hb
+    | cons y r' =>
+      cases i with
+      | zero =>
+        simp only [List.getElem?_cons_zero, Option.some.injEq] at ha hb
+        subst ha; subst hb
+        simp [cutAll]
+      | succ i =>
+        simp only [List.getElem?_cons_succ] at ha hb
+        simp only [cutAll, List.getElem?_cons_succ]
+        rw [ih r' (j + 1) i ha hb]
+        congr 3; omega
+
+theorem lv_cut (s s' : St) (k : Nat) : lv (St.cut s s' k) = (lcfg s'.cfg, 0, 0, 0, .stopped) := rfl
+
 theorem step_coherent (ms : MSt) (op : MOp) (h : Coherent ms) : Coherent (ms.step op) := by
   cases op with
+  | die c ks =>
+    simp only [MSt.step]
+    have hc : Coherent (MSt.send ms c) := by
+      rw [MSt.send_eq_map ms h c]
+      exact h.map _ (fun _ _ hxy => lv_send_congr hxy c)
+    intro x hx y hy
+    obtain ⟨_, x', _, hx', rfl⟩ := cutAll_mem _ _ _ _ x hx
+    obtain ⟨_, y', _, hy', rfl⟩ := cutAll_mem _ _ _ _ y hy
+    rw [lv_cut, lv_cut, (lv_fields (hc x' hx' y' hy')).1]
   | advance d =>
     exact h.map _ (fun x y hxy => by
       obtain ⟨a1, a2, a3, a4, a5⟩ := lv_fields hxy
@@ -377,6 +422,14 @@ theorem lockstep (ms : MSt) (h : List MOp) (hc : Coherent ms) (i : Nat) (s : St)
         simp only [MSt.step, List.getElem?_map, hs, Option.map_some, St.step]
       have := ih _ hc' _ this
       simpa [proj, projOp, St.exec] using this
+    | die c ks =>
+      have : (ms.step (.die c ks))[i]? = some (s.step (.die c (ks.getD i 0))) := by
+        simp only [MSt.step, St.step, St.die]
+        have hb : (MSt.send ms c)[i]? = some (s.send c) := by
+          simp only [MSt.send_eq_map ms hc c, List.getElem?_map, hs, Option.map_some]
+        rw [cutAll_get ms _ 0 ks i s _ hs hb, Nat.zero_add]
+      have := ih _ hc' _ this
+      simpa [proj, projOp, St.exec] using this
     | batch j b =>
       by_cases hj : j = i
       · subst hj
@@ -404,6 +457,7 @@ def mproto : Status → List MOp → Bool
   | st, .ctl .run :: r => (st != .stopped) && mproto .running r
   | _, .ctl .stop :: r => mproto .stopped r
   | _, .reboot :: r => mproto .stopped r
+  | st, .die c _ :: r => (match c with | .run => st != .stopped | _ => true) && mproto .stopped r
   | st, _ :: r => mproto st r
 
 theorem proto_proj (i : Nat) (st : Status) (h : List MOp) : proto st (proj i h) = mproto st h := by
@@ -413,6 +467,10 @@ theorem proto_proj (i : Nat) (st : Status) (h : List MOp) : proto st (proj i h) 
     cases op with
     | advance d => simp only [proj, List.filterMap_cons, projOp, proto, mproto]; exact ih st
     | reboot => simp only [proj, List.filterMap_cons, projOp, proto, mproto]; exact ih _
+    | die c ks =>
+      simp only [proj, List.filterMap_cons, projOp, proto, mproto]
+      rw [show proto Status.stopped (List.filterMap (projOp i) rest) = mproto .stopped rest from ih _]
+      cases c <;> rfl
     | batch j b =>
       by_cases hj : j = i
       · simp only [proj, List.filterMap_cons, projOp, hj, if_true, proto, mproto]; exact ih st
